@@ -61,17 +61,30 @@ def setField : List (String × GVal) → String → GVal → List (String × GVa
   | [], _, _ => []
   | (g, w) :: rest, f, v => if g == f then (g, v) :: rest else (g, w) :: setField rest f v
 
-/-- zero value of a type (`var x T`) -/
-partial def zero (file : GFile) : GTy → GVal
-  | .void => .void | .unit => .unit | .bool => .bool false
-  | .int b s => .int b s 0 | .float b => .float b 0.0 | .string => .str ""
-  | .struct n fs => .struct n (fs.map fun (f, t) => (f, zero file t))
-  | .ptr _ => .nilv | .func _ _ => .nilv | .slice _ => .nilv
-  | .array n e => .array (List.replicate n (zero file e))
-  | .name n =>
-    match file.structFields n with
-    | some fs => .struct n (fs.map fun (f, t) => (f, zero file t))
-    | none => .nilv
+/-- zero value of a type (`var x T`), with the struct declarations given as a function and the
+    nesting depth bounded: a TOTAL definition (it was a `partial def` of the file, i.e. an opaque
+    constant, so that `zero F` and `zero F'` could not be related for two files declaring the same
+    structs).  `.name n` unfolds the declaration of `n`; a struct that contains itself by value does
+    not exist in Go, so the bound is never reached on a valid program. -/
+def zeroWith (sf : String → Option (List (String × GTy))) : Nat → GTy → GVal
+  | 0, _ => .nilv
+  | k + 1, t =>
+    match t with
+    | .void => .void | .unit => .unit | .bool => .bool false
+    | .int b s => .int b s 0 | .float b => .float b 0.0 | .string => .str ""
+    | .struct n fs => .struct n (fs.map fun p => (p.1, zeroWith sf k p.2))
+    | .ptr _ => .nilv | .func _ _ => .nilv | .slice _ => .nilv
+    | .array n e => .array (List.replicate n (zeroWith sf k e))
+    | .name n =>
+      match sf n with
+      | some fs => .struct n (fs.map fun p => (p.1, zeroWith sf k p.2))
+      | none => .nilv
+
+/-- nesting depth up to which `zero` unfolds declarations -/
+def zeroDepth : Nat := 64
+
+/-- zero value of a type (`var x T`): depends on the file only through its struct declarations -/
+def zero (file : GFile) (t : GTy) : GVal := zeroWith file.structFields zeroDepth t
 
 mutual
 /-- a type no Go compiler accepts as the type of a variable (array longer than the address space);
@@ -390,6 +403,9 @@ def callG (fuel : Nat) (F : GFile) (w : GWorld) (f : GVal) (args : List GVal) : 
   | .func name =>
     match F.findFunc name with
     | some fn =>
+      -- Go checks the number of arguments statically; the untyped semantics has no rule for a call
+      -- with another number of arguments than parameters
+      if fn.params.length != args.length then .fail (.stuck "go: wrong number of arguments") w else
       let ρ : GEnv := (fn.params.zip args).map fun ((x, _), v) => (x, v)
       match execBlockG fuel F ρ w fn.body with
       | .fail f w => .fail f w
